@@ -101,7 +101,7 @@ CLAIMS = {
               '(old end, |enc(rec)|) also when the write triggers a rotation (defect D14, fixed); a chunk is closed iff records >= max_records or size >= max_size right after the write; '
               'the closed chunk is keyed by its start, the new chunk starts at the old end, its head is State(state at rotation), its file is created under chunk_path(offset) and the head is written; '
               'the old tail is queued as a synced Write before AppendFile; Inv_WAL (chunks abut) is preserved; on_disk_size == end - oldest start; the batch append returns the segment of its last record (also across a rotation).'),
-        note=TRUST + ' File effects are uninterpreted events of assumed std contracts. The file-name codec (chunk_file_name/parse_chunk_file_name, format!/str) is not under contract. Worker-side placement of writes is part of C04 (unit U7).',
+        note=TRUST + ' File effects are uninterpreted events of assumed std contracts. The file-name codec (chunk_file_name/parse_chunk_file_name/num::format_pad_u64: format!/str, outside the reach of Verus, full-domain Kani did not terminate) is NOT under contract and NOT proved: a BOUNDED stand-in runs the real functions on a stated finite set of about 161000 u64 offsets (all powers of 2 and 10 with neighbours, every digit at every position, 200000 LCG values over all magnitudes) for round trip, fixed width, name order == offset order and rejection of 2400 malformed names (replays/bounded/file_name_codec.rs; reported in the evidence under bounded_stand_ins, never counted among the discharged obligations). Worker-side placement of writes is part of C04 (unit U7).',
         technique='Verus function contracts over offset/segment arithmetic and sent-message ghost history, on extracted code',
         design='5 C11',
     ),
